@@ -31,6 +31,7 @@ class E3Config:
     die_exit0: bool = False
     liveness_choice: bool = True
     monitor: bool = False
+    queue_scale: Optional[int] = None   # bounded Manager queues are scaled down to this many slots
     linger: tuple = ()               # nodes whose worker process never exits by itself after sending its result
 
     def to_json(self):
@@ -42,7 +43,7 @@ class E3Config:
     def from_json(d):
         return E3Config(base=e2.Config.from_json(d['base']), backend=d['backend'], max_workers=d['max_workers'],
                         cpu_count=d['cpu_count'], log_mode=d['log_mode'], die_exit0=d['die_exit0'],
-                        liveness_choice=d.get('liveness_choice', True), monitor=d.get('monitor', False), linger=tuple(d.get('linger', ())))
+                        liveness_choice=d.get('liveness_choice', True), monitor=d.get('monitor', False), linger=tuple(d.get('linger', ())), queue_scale=d.get('queue_scale'))
 
     def brief(self):
         b = self.base.brief()
@@ -53,6 +54,8 @@ class E3Config:
             b['displays'] = 'on'
         if self.linger:
             b['linger'] = self.linger
+        if self.queue_scale:
+            b['queue_scale'] = self.queue_scale
         return b
 
     @property
@@ -91,7 +94,7 @@ def run_once_e3(cfg: E3Config, chooser: Chooser, *, world_hook=None, around_run=
     eff_workers = cfg.max_workers if cfg.max_workers is not None else cfg.cpu_count
     world = VWorld(chooser, cpu_count=cfg.cpu_count, log_mode=cfg.log_mode,
                    die_labels=[spec.labels[i] for i in base.died], die_exit0=cfg.die_exit0,
-                   liveness_choice=cfg.liveness_choice, terminate_choice=terminate_choice, threaded=threaded)
+                   liveness_choice=cfg.liveness_choice, terminate_choice=terminate_choice, threaded=threaded, queue_scale=cfg.queue_scale)
     world.linger_labels = frozenset(spec.labels[i] for i in cfg.linger)
     want_method = cfg.backend
     backend_events: list = []
